@@ -1,6 +1,13 @@
 //! Deterministic single-threaded scheduler: polls N task futures; at every step a chooser picks
 //! one runnable task. Preemption points are whatever returns Pending: the pre-call yields, every
 //! storage operation of the yielding backend, and contended lock acquisitions.
+//!
+//! Fair-lock mode (`FAIR_LOCK_US` > 0): `async_lock::Mutex` lets a task that unlocks and locks
+//! again at once overtake a parked waiter unless that waiter has been waiting for more than
+//! 500 us of wall-clock time, after which the lock is handed over in arrival order. On a loaded
+//! multi-threaded executor that is the common case, so every lock acquisition is a preemption
+//! point there. The single-threaded scheduler reproduces it by letting that much wall-clock time
+//! pass before each step during which some task is parked.
 
 use crate::rng::Rng;
 use std::future::Future;
@@ -8,6 +15,9 @@ use std::pin::Pin;
 use std::sync::atomic::{AtomicBool, Ordering};
 use std::sync::Arc;
 use std::task::{Context, Poll, Wake, Waker};
+
+/// microseconds of wall-clock time to let pass before a step while some task is parked (0 = off)
+pub static FAIR_LOCK_US: std::sync::atomic::AtomicU64 = std::sync::atomic::AtomicU64::new(0);
 
 struct Flag(AtomicBool);
 impl Wake for Flag {
@@ -80,6 +90,7 @@ pub struct RunStats {
     pub deadlock: bool,
     pub budget_exhausted: bool,
     pub choice_hash: u64,
+    pub fair_waits: u64,
 }
 
 /// Run tasks to completion. `observe(step, runnable, ready_flags)` is called before each choice.
@@ -90,6 +101,7 @@ pub fn run(tasks: Vec<Task>, chooser: &mut dyn Chooser, max_steps: usize, mut ob
     let wakers: Vec<Waker> = flags.iter().map(|f| Waker::from(f.clone())).collect();
     let mut st = RunStats::default();
     let mut last: Option<usize> = None;
+    let mut parked_before = false;
     let mut h: u64 = 0xcbf29ce484222325;
     loop {
         let alive: Vec<usize> = (0..n).filter(|i| tasks[*i].is_some()).collect();
@@ -106,6 +118,13 @@ pub fn run(tasks: Vec<Task>, chooser: &mut dyn Chooser, max_steps: usize, mut ob
             break;
         }
         let ready: Vec<bool> = (0..n).map(|i| tasks[i].is_some() && flags[i].0.load(Ordering::SeqCst)).collect();
+        let fair = FAIR_LOCK_US.load(Ordering::Relaxed);
+        let parked_now = runnable.len() < alive.len();
+        if fair > 0 && (parked_now || parked_before) {
+            std::thread::sleep(std::time::Duration::from_micros(fair));
+            st.fair_waits += 1;
+        }
+        parked_before = parked_now;
         observe(&runnable, &ready);
         let pos = chooser.choose(&runnable, st.steps);
         let t = runnable[pos.min(runnable.len() - 1)];
